@@ -579,7 +579,9 @@ func (e *Engine) mk(vd *VD, addr atree.Address, limit uint32, depth int) (atree.
 		}
 		return v, m, nil
 	case "arr":
-		n := &Node{ID: e.nextNode, Addr: addr, TI: TI{N: vd.N % 48}}
+		// the type information of one array in seven says "composite" (the library puts no restriction on it):
+		// it then shares its encoded type with composite maps of the same number in the slab's type table
+		n := &Node{ID: e.nextNode, Addr: addr, TI: TI{N: vd.N % 48, Comp: vd.N%7 == 3}}
 		e.nextNode++
 		a, err := atree.NewArray(e.St, addr, n.TI)
 		if err != nil {
